@@ -357,6 +357,52 @@ func runC03(c *Ctx) {
 			c.Undecided(fname(ub)+"#write-back", ub.Pos(), "the write-back of the merged header was not found")
 		}
 	}
+
+	// ------------------------------------------------------------ Q13
+	c.Rule("C03.Q13", "ALWAYS-WITH", "a recorded quorum does not outlive the weight it was recorded for: the voter remembers that a block crossed a quorum (VoteStatus.update) and later steps read that memory (status) instead of the tally; the tally can fall again — a sender that votes for a second block has its weight taken out of the first (addrDifferentVote) — so in that case of processVoteMsg the memory is withdrawn when the remaining tally is below the quorum (a call that deletes from the VoteStatus maps, under OverThreshold == false). Otherwise one equivocator lets the node commit, in a certificate round, a block whose attached precommit set weighs less than the quorum: every verifier rejects the header and the node cannot commit again in that index")
+	c.Min(1)
+	{
+		pvmFn := w.Fn(uconPkg, "Voter", "processVoteMsg")
+		diffV, _ := constant.Int64Val(constant.ToInt(constOf(w, uconPkg, "addrDifferentVote")))
+		overTh := w.FuncObj(uconPkg, "", "OverThreshold")
+		// VoteStatus methods that withdraw (delete from the maps)
+		withdraws := map[*ssa.Function]bool{}
+		for _, fn := range w.FuncsIn(uconPkg) {
+			if fn.Blocks == nil || fn.Signature.Recv() == nil || ownerName(fn.Signature.Recv().Type()) != "VoteStatus" {
+				continue
+			}
+			for _, fw := range fieldWrites(fn) {
+				if fw.Kind == "delete" || (fw.Kind == "mapupdate" && isFalseStore(fw.Instr)) {
+					withdraws[fn] = true
+				}
+			}
+		}
+		c.sites++
+		ok := false
+		for _, ci := range callInstrs(pvmFn) {
+			g := ci.Common().StaticCallee()
+			if g == nil || !withdraws[g] {
+				continue
+			}
+			inCase, below := false, false
+			for _, a := range atomsOf(factsAtInstr(ci.(ssa.Instruction))) {
+				if a.Kind == "eq" && a.Truth && a.Y != nil {
+					if n, isC := constInt(a.Y); isC && n == diffV {
+						inCase = true
+					}
+				}
+				if a.Kind == "true" && !a.Truth {
+					if cc, isCall := stripConv(a.X).(*ssa.Call); isCall && sameFunc(calleeObj(cc), overTh) {
+						below = true
+					}
+				}
+			}
+			if inCase && below {
+				ok = true
+			}
+		}
+		c.Check(fname(pvmFn)+"#quorum-memory-withdrawn-with-the-weight", pvmFn.Pos(), ok, ifelse(ok, "in the double-voter case the recorded quorum is deleted when the remaining tally is below the threshold", "when a double voter's weight is taken out of its first block nothing withdraws the quorum recorded for that block: precommits 700+400+300 reach 1400 ≥ 1370, the 300 equivocate and X drops to 1100, certificate votes reach their quorum and judgeVoteCount(Certificate) commits on the remembered precommit quorum — the CommitEvent's precommit set weighs 1100"))
+	}
 }
 
 func c03Q8(c *Ctx, w *World, pvm *ssa.Function, jvcObj *types.Func) {
@@ -1195,4 +1241,14 @@ func c03Variants() []Variant {
 		{Name: "keep-double-voter-weight", File: "consensus/ucon/votes_mgr.go", Old: "			v.voteCounts[priorityAndHash.Hash] -= vote.Votes\n", New: "", Rule: "C03.Q4", Construct: "equivocator-weight-removed"},
 		{Name: "payload-without-index", File: v, Old: "	payload := append(blockHash.Bytes(), append(v.round.Bytes(), uint32ToBytes(v.roundIndex)...)...)\n\n	// for certificate vote, use the parameters", New: "	payload := append(blockHash.Bytes(), v.round.Bytes()...)\n\n	// for certificate vote, use the parameters", Rule: "C03.Q5", Construct: "signVote"},
 	}
+}
+
+// isFalseStore: a map update that stores the constant false.
+func isFalseStore(in ssa.Instruction) bool {
+	mu, ok := in.(*ssa.MapUpdate)
+	if !ok {
+		return false
+	}
+	cv, ok := mu.Value.(*ssa.Const)
+	return ok && cv.Value != nil && cv.Value.String() == "false"
 }
